@@ -1,5 +1,6 @@
 import PV.Model.FloatArith
 import PV.Generated.Score
+import PV.Model.SCC
 /-!
 Line-protocol driver: runs the executable models on the cases the harness also ran on the
 implementation.  Core-only imports (links as a native executable).
@@ -31,6 +32,24 @@ def runScore (t : Array String) : String :=
   let g := PV.Generated.Score.GetGradeFromScore Float o.HealthScore
   s!"{if err then 1 else 0} {o.HealthScore} {o.Grade} {o.ComplexityScore} {o.DeadCodeScore} {o.DuplicationScore} {o.CouplingScore} {o.CohesionScore} {o.DependencyScore} {o.ArchitectureScore} {fb} {g}"
 
+def joinWith (sep : String) (l : List String) : String := sep.intercalate l
+
+/-- `scc n u1 v1 u2 v2 …` → `cycles|severities|total|modules`, cycles as `0,1,2;3,4` -/
+def runScc (t : Array String) : String :=
+  if t.size < 1 then "bad-op" else
+  let n := (tokI t[0]!).toNat
+  let rec pairs (i : Nat) (fuel : Nat) (acc : List (Nat × Nat)) : List (Nat × Nat) :=
+    match fuel with
+    | 0 => acc.reverse
+    | f + 1 => if i + 1 < t.size then pairs (i + 2) f (((tokI t[i]!).toNat, (tokI t[i+1]!).toNat) :: acc) else acc.reverse
+  let g : PV.SCC.G := { n := n, edges := pairs 1 t.size [] }
+  match PV.SCC.cycles g with
+  | none => "fuel-exhausted"
+  | some cs =>
+    let st := PV.SCC.stats g cs
+    let cyc := joinWith ";" (cs.map fun c => joinWith "," (c.map toString))
+    s!"{cyc}|{joinWith "," st.severities}|{st.totalCycles}|{st.modulesInCycles}"
+
 def step (line : String) : String :=
   let parts := (line.splitOn " ").filter (· ≠ "")
   match parts with
@@ -39,6 +58,7 @@ def step (line : String) : String :=
     let t := rest.toArray
     match cmd with
     | "score" => runScore t
+    | "scc" => runScc t
     | _ => "bad-op"
 
 partial def loop (h : IO.FS.Stream) (out : IO.FS.Stream) : IO Unit := do
